@@ -15,6 +15,7 @@ package udp
 //@ pred ethhdr(e *layers.Ethernet, r *scan.Request) = fresh(e) && e.SrcMAC == r.SrcMAC && e.DstMAC == r.DstMAC && e.EthernetType == 2048
 //@ func (*PacketFiller).Fill
 //@   sig f, packet, r
+//@   locals ip: *github.com/google/gopacket/layers.IPv4 ;; udp: *github.com/google/gopacket/layers.UDP ;; opt: github.com/google/gopacket.SerializeOptions ;; eth: *github.com/google/gopacket/layers.Ethernet
 //@   props C05 C11 C17 C01 C02 C19 C07 C13
 //@   observe rand.Intn, SetNetworkLayerForChecksum, gopacket.SerializeLayers
 //@   entry row cksumerr: [call rand.Intn(65535) as (id0) ; call rand.Intn(28232) as (sp0) ; call SetNetworkLayerForChecksum(bind_ck, bind_n) as (ce)] when ce != nil && ret == ce -> exit
@@ -62,6 +63,7 @@ package udp
 // constructor: defaults (TTL 64, protocol UDP, don't-fragment, no payload), then the options in order, nothing else
 //@ func NewPacketFiller
 //@   sig opts
+//@   locals f: *PacketFiller ;; o: PacketFillerOption
 //@   props C05 C01 C02 C11 C17 C19 C07 C13
 //@   observe PacketFillerOption
 //@   entry row init:  [] when f.ttl == 64 && f.proto == 17 && f.flags == 2 && f.length == 0 && len(f.payload) == 0 && !f.vpnMode -> loop 0
@@ -71,6 +73,7 @@ package udp
 // C06 / C03: replies to UDP probes are ICMP messages: the method uses the ICMP processor (with this scan's name)
 //@ func NewScanMethod
 //@   sig psrc, results, vpnMode
+//@   locals pp: *github.com/v-byte-cpu/sx/pkg/scan/icmp.PacketProcessor
 //@   props C06 C03 C14 C16 C20
 //@   observe icmp.NewPacketProcessor
 //@   entry row build: [call icmp.NewPacketProcessor("udp", results, vpnMode) as (pp)] when ret.PacketSource == psrc && isptr(ret.Processor, icmp.PacketProcessor) && asptr(ret.Processor, icmp.PacketProcessor) == pp
